@@ -81,4 +81,24 @@ CHECKS = {
         "note": "Finite values only; the alphabet is a lattice around the "
                 "code's decision points, not all floats.",
     },
+    "C07": {
+        "engine": "E-INPUT", "level": "exploration",
+        "technique": "bounded exhaustive enumeration of ALL small arrays "
+                     "over type-limit alphabets x factor triples x outside "
+                     "values vs exact-rational block statistics",
+        "text": "Every array over a per-type limit alphabet {1, max, max-1, "
+                "0} (float32: dyadic and 2^100-scale alphabets) for every "
+                "shape in {1,2,3}^3 up to 6 (quick) / 8 (thorough) voxels, "
+                "as 1- and 2-channel chunks, is downscaled with every factor "
+                "triple each method supports ({1,2}^3 average, {1,2,3}^3 "
+                "majority/stride) and every outside-value setting, and "
+                "compared voxel by voxel with the exact mean rounded "
+                "half-to-even (edge / constant completion), the majority "
+                "label (smallest on ties) or the first voxel; shape, dtype, "
+                "min/max containment, input immutability and "
+                "NotImplementedError for unsupported factors are checked.",
+        "note": "Small-scope: blocks of at most 8 voxels per axis pair; "
+                "float32 alphabets keep partial sums exact in float64. "
+                "uint64 averaging above 2^53 is a recorded known finding.",
+    },
 }
